@@ -48,28 +48,33 @@ def run_witnesses(src):
         shutil.rmtree(tmp, ignore_errors=True)
 
 
-def selftest(pid, limit_benign=None):
-    """apply each seeded mutant of this property and each benign patch to a scratch copy of /repo and run the
-    quick check there; returns a summary for the evidence (never affects the verdict)"""
-    out = {"seeded": [], "benign": []}
+def _run_patch(args):
+    kind, ident, patch, pid = args
     mutrun = os.path.join(HERE, "bin", "mutrun.sh")
-    for d in sorted(glob.glob(os.path.join(HERE, "seeded", pid + "-*"))):
-        p = os.path.join(d, "patch.diff")
-        r = subprocess.run([mutrun, p, pid], capture_output=True, text=True)
-        txt = r.stdout + r.stderr
-        if "PATCH-FAILED" in txt:
-            out["seeded"].append({"id": os.path.basename(d), "result": "skipped: patch no longer applies"})
-            continue
+    env = dict(os.environ, PQ_NO_SELFTEST="1")
+    r = subprocess.run([mutrun, patch, pid], capture_output=True, text=True, env=env)
+    txt = r.stdout + r.stderr
+    if "PATCH-FAILED" in txt:
+        return kind, {"id": ident, "result": "skipped: patch no longer applies"}
+    if kind == "seeded":
         rules = sorted(set(re.findall(r"rule=([A-Z-]+)", txt)))
-        out["seeded"].append({"id": os.path.basename(d), "result": "detected" if "VIOLATION" in txt else "MISSED", "rules": rules})
-    bs = sorted(glob.glob(os.path.join(HERE, "selftest", "benign", "*.patch")))
-    for p in bs[:limit_benign]:
-        r = subprocess.run([mutrun, p, pid], capture_output=True, text=True)
-        txt = r.stdout + r.stderr
-        if "PATCH-FAILED" in txt:
-            out["benign"].append({"id": os.path.basename(p), "result": "skipped: patch no longer applies"})
-            continue
-        out["benign"].append({"id": os.path.basename(p), "result": "ALARM" if ("VIOLATION" in txt or "CHECK-ERROR" in txt) else "silent"})
+        return kind, {"id": ident, "result": "detected" if "VIOLATION" in txt else "MISSED", "rules": rules}
+    return kind, {"id": ident, "result": "ALARM" if ("VIOLATION" in txt or "CHECK-ERROR" in txt or "Traceback" in txt) else "silent"}
+
+
+def selftest(pid, limit_benign=None):
+    """apply each seeded change of this property and each benign patch to a scratch copy of /repo (outside /repo and
+    /verif, removed afterwards) and run the quick check there; returns a summary for the evidence (never affects the verdict)"""
+    from concurrent.futures import ThreadPoolExecutor
+    jobs = []
+    for d in sorted(glob.glob(os.path.join(HERE, "seeded", pid + "-*"))):
+        jobs.append(("seeded", os.path.basename(d), os.path.join(d, "patch.diff"), pid))
+    for p in sorted(glob.glob(os.path.join(HERE, "selftest", "benign", "*.patch")))[:limit_benign]:
+        jobs.append(("benign", os.path.basename(p), p, pid))
+    out = {"seeded": [], "benign": []}
+    with ThreadPoolExecutor(max_workers=min(8, max(1, (os.cpu_count() or 2) // 2))) as ex:
+        for kind, res in ex.map(_run_patch, jobs):
+            out[kind].append(res)
     out["summary"] = "seeded %d/%d detected; benign %d/%d silent" % (
         sum(1 for x in out["seeded"] if x["result"] == "detected"), sum(1 for x in out["seeded"] if not x["result"].startswith("skipped")),
         sum(1 for x in out["benign"] if x["result"] == "silent"), sum(1 for x in out["benign"] if not x["result"].startswith("skipped")))
